@@ -196,6 +196,11 @@ class FnView:
                 m = _switch_on_discr(self.fn, c.term["target"], c.term["dest"]["local"])
                 if m is not None and 1 in m:
                     out += self.pg.edge_node(c.term["target"], m[1]) + [self.pg.entry_of(m[1])]
+        # the residual of a `?` converted straight into the return place: `return FromResidual::from_residual(r)`
+        # (the switch that led here may have been resolved away when an inlined helper's returns were threaded)
+        for bb, c in self.calls.items():
+            if "FromResidual" in c.name and c.name.endswith("from_residual") and not c.term["dest"]["proj"] and c.term["dest"]["local"] == 0:
+                out.append(("t", bb))
         for bb, blk in enumerate(self.fn.blocks):
             if blk["cleanup"]:
                 continue
